@@ -258,6 +258,12 @@ func CheckDispatch(t *ref.Table, q hv.Req, o *hv.Obs, e Expect) (class, observed
 		}
 		return "", "", ""
 	}
+	if q.Path == "*" || q.Path == "" {
+		if o.Pattern != "" || len(o.Params) != 0 || (o.Kind != "OPT" && o.Kind != "405") {
+			return "star-path-routed", o.Summary(), "'*' and the empty path are answered by the server-wide OPTIONS/405 node"
+		}
+		return "", "", ""
+	}
 	if e.NotFound {
 		if o.Kind != "404" || o.Status != 404 {
 			return "served-but-model-404", o.Summary(), "404"
